@@ -163,9 +163,16 @@ func (i *interpreter) scaledValue(recv value, target int64) value {
 	case s == target:
 		return rawInt(v, types.Int64)
 	case s > target:
-		r := Mul(BigC(pow10(s-target)), v)
-		in := And(Le(IntC(minI64), r), Le(r, IntC(maxI64)))
-		return rawInt(Ite(in, r, IntC(0)), types.Int64) // overflow: the library returns 0
+		// positiveScaleInt64: one wrapping multiplication for these exponents; the
+		// library hands back the wrapped product (and 0 for the most negative value)
+		switch s - target {
+		case 1, 2, 3, 6, 9:
+		default:
+			panic(unsupported{"resource.Quantity scaled up by an exponent other than 1,2,3,6,9"})
+		}
+		r := i.mkInt(Mul(BigC(pow10(s-target)), v), types.Int64)
+		rt, _, _ := intTerm(r)
+		return rawInt(Ite(Eq(v, IntC(minI64)), IntC(0), rt), types.Int64)
 	default:
 		c := BigC(pow10(target - s))
 		// rounded away from zero
